@@ -116,13 +116,32 @@ def gen_contraction_table():
 def code_facts():
     """small constants of the running code that the model relies on"""
     import dataclasses
+    import inspect
+    import itertools as it
     from adcgen.indices import Indices
     from adcgen.generate_code.contraction import ScalingComponent, Scaling
     base = {k: [ord(c) for c in v] for k, v in Indices.base.items()}
-    return {"base": base, "spins": list(Indices.spins),
-            "scal_fields": [f.name for f in dataclasses.fields(ScalingComponent)],
-            "scaling_fields": [f.name for f in dataclasses.fields(Scaling)],
-            "scal_order": bool(ScalingComponent.__dataclass_params__.order), "scaling_order": bool(Scaling.__dataclass_params__.order)}
+
+    def field_names(cls):
+        if dataclasses.is_dataclass(cls):
+            return [f.name for f in dataclasses.fields(cls)]
+        return [p for p in inspect.signature(cls).parameters]
+
+    def ordered_like_tuples():
+        """behavioural test: instances compare like the tuples of their fields in declaration order"""
+        try:
+            names = field_names(ScalingComponent)
+            vals = [dict(zip(names, v)) for v in it.product((0, 1, 2), repeat=len(names))][::7]
+            comps = [ScalingComponent(**v) for v in vals]
+            tups = [tuple(v[n] for n in names) for v in vals]
+            ok = all((a < b) == (ta < tb) for (a, ta) in zip(comps, tups) for (b, tb) in zip(comps, tups))
+            s1, s2 = Scaling(comps[1], comps[5]), Scaling(comps[1], comps[6])
+            return ok and ((s1 < s2) == ((tups[1], tups[5]) < (tups[1], tups[6])))
+        except Exception:
+            return False
+    order = ordered_like_tuples()
+    return {"base": base, "spins": list(Indices.spins), "scal_fields": field_names(ScalingComponent),
+            "scaling_fields": field_names(Scaling), "scal_order": order, "scaling_order": order}
 
 
 def gen_code_facts():
